@@ -2,6 +2,7 @@ pub mod builder;
 pub mod cache;
 pub mod client;
 pub mod dnssec_world;
+pub mod e2e;
 pub mod validator;
 pub mod server;
 pub mod tsig;
@@ -23,6 +24,8 @@ pub fn scenario_by_name(name: &str) -> Option<Arc<dyn Scenario>> {
         "validator" => Arc::new(validator::ValidatorScn),
         "xfr" => Arc::new(xfr::XfrScn),
         "xfr_server" => Arc::new(xfr_server::XfrServerScn),
+        "tsig_e2e" => Arc::new(e2e::E2eScn { prop: "C11", name: "tsig_e2e" }),
+        "xfr_e2e" => Arc::new(e2e::E2eScn { prop: "C10", name: "xfr_e2e" }),
         "zone_isolation" => Arc::new(zonestore::IsolationScn),
         "zone_answers" => Arc::new(zone_answers::AnswersScn),
         _ => return None,
@@ -35,12 +38,12 @@ pub fn check_spec(property: &str) -> Option<CheckSpec> {
         "C10" => CheckSpec {
             property: "C10",
             level: "exploration",
-            scenarios: vec![(Arc::new(xfr::XfrScn), 20_000, 600_000), (Arc::new(xfr_server::XfrServerScn), 4_000, 150_000)],
+            scenarios: vec![(Arc::new(xfr::XfrScn), 20_000, 600_000), (Arc::new(xfr_server::XfrServerScn), 4_000, 150_000), (Arc::new(e2e::E2eScn { prop: "C10", name: "xfr_e2e" }), 4_000, 200_000)],
         },
         "C11" => CheckSpec {
             property: "C11",
             level: "exploration",
-            scenarios: vec![(Arc::new(tsig::TsigScn), 150_000, 8_000_000)],
+            scenarios: vec![(Arc::new(tsig::TsigScn), 150_000, 8_000_000), (Arc::new(e2e::E2eScn { prop: "C11", name: "tsig_e2e" }), 8_000, 400_000)],
         },
         "C14" => CheckSpec {
             property: "C14",
